@@ -13,6 +13,8 @@ CONSTANTS
   NChecks = 0
   MaxVer = 1
   DistShared = FALSE
+  NEntries = 0
+  NestedRead = FALSE
   Part = "lifecycle"
 INVARIANTS NoSelfWait
 PROPERTIES EventuallyStopped UserShutdownReturns
